@@ -138,7 +138,16 @@ def prove(pid, extra_targets=()):
                 bad.append('%s: %s outside a section' % (os.path.relpath(f, ROOT), line.strip()[:40]))
     if bad:
         raise Broken('hygiene gate: ' + '; '.join(bad[:5]))
-    return {'theorems': theorems, 'closed': closed, 'axioms': sorted(axioms),
+    chk = None
+    if os.environ.get('VERIF_COQCHK') == '1':
+        # independent re-check of the compiled cone with coqchk (thorough tier): lists every axiom of every loaded library
+        rc2, out2 = sh('ulimit -v 16000000 2>/dev/null; cd "%s" && timeout 1500 coqchk -silent -o -Q . BiomV BiomV.Props.%s' % (COQ, pid),
+                       cwd=COQ, timeout=1600)
+        if rc2 != 0:
+            raise Broken('coqchk rejected the compiled cone of Props/%s' % pid, out2[-3000:])
+        m = re.search(r'\* Axioms:\s*(.*?)(?:\n\s*\n|\n\* |\Z)', out2, re.S)
+        chk = {'ok': True, 'axioms': ' '.join(m.group(1).split()) if m else '<none>'}
+    return {'theorems': theorems, 'closed': closed, 'axioms': sorted(axioms), 'coqchk': chk,
             'checker_cmd': 'tools/build_coq.sh %s && coqc -Q coq BiomV coq/Props/%s.v' % (' '.join(targets), pid),
             'prove_s': round(time.time() - t0, 1)}
 
@@ -263,6 +272,8 @@ def run_check(mod, tier, seed, replay=None):
     """mod: property module.  Returns process exit code."""
     pid = mod.ID
     t0 = time.time()
+    if tier == 'thorough' and 'VERIF_COQCHK' not in os.environ:
+        os.environ['VERIF_COQCHK'] = '1'
     broken = []          # list of (what, detail)
     proof = None
     # 1. regenerate translated files
@@ -375,6 +386,7 @@ def run_check(mod, tier, seed, replay=None):
                           (', '.join(proof['axioms']) if proof and proof['axioms'] else 'none (Closed under the global context)')]
                          + list(getattr(mod, 'TRUSTED', []))),
         'theorems': proof['theorems'] if proof else [],
+        'coqchk': proof.get('coqchk') if proof else None,
         'evaluations': len(cases),
         'distinct_nontrivial': nontrivial,
         'rule': getattr(mod, 'RULE', ''),
